@@ -75,6 +75,7 @@ type vEvent struct {
 	AllowAll      bool              `json:"allow_all,omitempty"`
 	Allow         [][2]string       `json:"allow,omitempty"`
 	CrashAtRemove int               `json:"crash_at_remove,omitempty"`
+	FailDir       string            `json:"fail_dir,omitempty"` // recover: storage rejects every write under this "database/measurement" directory
 }
 
 type vCase struct {
@@ -137,6 +138,35 @@ func (r *vRBAC) CheckPermissionsBatch(reqs []*auth.PermissionCheckRequest) []*au
 	return out
 }
 
+// ---- faulting storage: the real LocalBackend, except that writes under one directory fail ------
+
+type vFaultBackend struct {
+	*storage.LocalBackend
+	mu         sync.Mutex
+	failPrefix string
+	failed     int
+}
+
+func (b *vFaultBackend) Write(ctx context.Context, path string, data []byte) error {
+	b.mu.Lock()
+	p := b.failPrefix
+	hit := p != "" && strings.HasPrefix(path, p+"/")
+	if hit {
+		b.failed++
+	}
+	b.mu.Unlock()
+	if hit {
+		return fmt.Errorf("verif: injected storage failure for %s", path)
+	}
+	return b.LocalBackend.Write(ctx, path, data)
+}
+
+func (b *vFaultBackend) setFail(prefix string) {
+	b.mu.Lock()
+	b.failPrefix = prefix
+	b.mu.Unlock()
+}
+
 // ---- one process lifetime ---------------------------------------------------------------------
 
 type vReplica struct {
@@ -151,6 +181,7 @@ type vNode struct {
 	writer   *wal.Writer
 	buffer   *ingest.ArrowBuffer
 	recovery *wal.Recovery
+	store    *vFaultBackend
 	rbac     *vRBAC
 	ln       *fasthttputil.InmemoryListener
 	conn     net.Conn
@@ -163,7 +194,7 @@ var verifCrash = fmt.Errorf("verif: simulated kill")
 
 func vIngestCfg() config.IngestConfig {
 	return config.IngestConfig{MaxBufferSize: 10000000, MaxBufferAgeMS: 36000000, Compression: "snappy",
-		FlushWorkers: 1, FlushQueueSize: 8, ShardCount: 2, FlushTimeoutSeconds: 120}
+		FlushWorkers: 1, FlushQueueSize: 8, ShardCount: 8, FlushTimeoutSeconds: 120}
 }
 
 func vStart(t *testing.T, walDir, storeDir string, ev *vEvent, rep *vReplica) *vNode {
@@ -202,11 +233,12 @@ func vStart(t *testing.T, walDir, storeDir string, ev *vEvent, rep *vReplica) *v
 	}
 	n.writer = w
 	n.recovery = wal.NewRecovery(n.cfg.WAL.Directory, zerolog.Nop())
-	backend, err := storage.NewLocalBackend(storeDir, zerolog.Nop())
+	local, err := storage.NewLocalBackend(storeDir, zerolog.Nop())
 	if err != nil {
 		t.Fatalf("NewLocalBackend: %v", err)
 	}
-	n.buffer = ingest.NewArrowBuffer(&n.cfg.Ingest, backend, zerolog.Nop())
+	n.store = &vFaultBackend{LocalBackend: local}
+	n.buffer = ingest.NewArrowBuffer(&n.cfg.Ingest, n.store, zerolog.Nop())
 	n.buffer.SetWAL(w)
 	if rep != nil {
 		w.SetReplicationHook(func(e *wal.ReplicationEntry) {
@@ -344,6 +376,8 @@ func (n *vNode) write(t *testing.T, ev *vEvent) (int, [][3]string) {
 
 // recover runs the startup-recovery statements of main(); returns (inactive wal files left, killed).
 func (n *vNode) recover(t *testing.T, ev *vEvent) (left int, killed bool) {
+	n.store.setFail(ev.FailDir)
+	defer n.store.setFail("")
 	removals := 0
 	wal.VerifRemoveHook = func(string) {
 		removals++
